@@ -77,6 +77,8 @@ def run(rep, scratch, tier, seed, replay=None):
                 rep.violation("correspondence", "server (cache %s, preload %s): batch of %d queries -> implementation %s, model %s" % (
                     cache, preload, len(qs), str(a)[:200], b[:200]), {"request": qs, "impl": a, "model": b, "dataset_lines": lines[:45]})
         nbad += sql_bad
+    if not replay:
+        nbad += grpc_big(rep, scratch, tier)
     # known finding probe: a value that is not valid UTF-8 cannot cross proto3 string fields
     srv = wc.Server(scratch, idx)
     try:
@@ -94,6 +96,36 @@ def run(rep, scratch, tier, seed, replay=None):
     })
     rep.assumptions += ["strings are valid UTF-8 (proto3 string fields); non-UTF-8 data cannot cross gRPC: known finding",
                         "HTTP/2 transport and protobuf (un)marshalling are trusted"]
+
+
+def grpc_big(rep, scratch, tier):
+    """A result of 40 000 groups (32-byte values: about 1.8 MB on the wire, between 1 MiB and gRPC's default limit of 4 MiB) through grpc:// and through file:."""
+    from . import dp
+    n = 40000
+    big = dp.Dataset("big40k", [{b"g": b"value-%026d" % i, b"a": b"1"} for i in range(n)], "forty-thousand-groups")
+    idx = wc.make_index(scratch, big, "c13big")
+    srv = wc.Server(scratch, idx, cache=True, preload=False)
+    try:
+        q = core.enc_str(b'a = "1" ; g')
+        lf = big.lines()[:1] and ["MISSINGFILE unused"]          # no dataset lines needed: the file exists already
+        out = {}
+        for tag, src in (("file", None), ("grpc", "grpc://%s" % srv.addr)):
+            lines = ["LOADFILE big40k %s" % idx] if src is None else []
+            lines += ["SQLOPEN h %s -" % (src or "big40k"), "SQLQ s1 h direct %s 1" % q, "ARGS 0", "SQLCLOSE h"]
+            path = scratch.path("c13-big-%s.txt" % tag)
+            open(path, "w").write("\n".join(lines) + "\n")
+            il, rc, err = core.run_impl(scratch, "sql", path, timeout=300)
+            out[tag] = next((l for l in il if l.startswith("SQL s1.0 ")), "NONE rc=%s %s" % (rc, err[-200:]))
+    finally:
+        srv.stop()
+    import hashlib
+    fa, ga = out["file"], out["grpc"]
+    ok = fa == ga and (" N %d " % n) in fa[:200]
+    if not ok:
+        rep.violation("correspondence", "a grouped query with %d result groups: file: source %s… ; grpc:// source %s…" % (n, fa[:160], ga[:160]),
+                      {"groups": n, "file": fa[:400], "grpc": ga[:400], "how": "vlib/c13.py grpc_big: rows {g: v00000..v39999, a: 1}, query a = \"1\" ; g"})
+    rep.coverage["large_result"] = {"groups": n, "equal": ok, "sha256": hashlib.sha256(fa.encode()).hexdigest()[:16]}
+    return 0 if ok else 1
 
 
 def grpc_sql(rep, scratch, rng, ds, addr, tier):
@@ -129,6 +161,16 @@ def grpc_sql(rep, scratch, rng, ds, addr, tier):
             for a in argsets:
                 lines.append(sqlcommon.enc_args(a))
         stmts.append((i, txt, argsets, mode))
+    # several handles on one data source: closing one must not disturb the others (a second handle,
+    # then a pooled handle used by four goroutines, each closed again), then the first handle
+    q1 = core.enc_str(b'a = "1" ; b')
+    nxt = 9000
+    for lines, src, h in ((lines_f, ds.did, "hf"), (lines_g, "grpc://%s" % addr, "hg"), (lines_m, ds.did, "hg")):
+        lines += ["SQLOPEN %s2 %s -" % (h, src), "SQLQ s9000 %s2 direct %s 1" % (h, q1), "ARGS 0", "SQLCLOSE %s2" % h,
+                  "SQLQ s9001 %s direct %s 1" % (h, q1), "ARGS 0",
+                  "SQLOPEN %s3 %s - 3" % (h, src), "SQLCONC c9 %s3 4 %s" % (h, q1), "SQLQ s9002 %s3 prepared %s 2" % (h, q1), "ARGS 0", "ARGS 0", "SQLCLOSE %s3" % h,
+                  "SQLQ s9003 %s prepared %s 1" % (h, q1), "ARGS 0"]
+    stmts += [(9000, b'a = "1" ; b', [[]], "direct"), (9001, b'a = "1" ; b', [[]], "direct"), (9002, b'a = "1" ; b', [[], []], "prepared"), (9003, b'a = "1" ; b', [[]], "prepared")]
     fi, fm, rc1, e1 = sqlcommon.run_lines(scratch, lines_f, "c13f", model_side=False)
     gi, _, rc2, e2 = sqlcommon.run_lines(scratch, lines_g, "c13g", model_side=False)
     _, gm, _, _ = sqlcommon.run_lines(scratch, lines_m, "c13m", impl_side=False)
